@@ -568,10 +568,10 @@ PROPS['C14']['models'] = list(PROPS['C14'].get('models', [])) + [A_MUXIDS]
 
 
 # ---- systematic gate sweep (gen2.gate_sweep): base conversations x instrumented windows x (arm, release) positions ----
-_SWEEP = ('; gate sweep: 8 base conversations (unary, echo, handler error, cancel, refused send, server stream, client stream, '
-          'deadline) x 8 instrumented windows x every (arm, release) position pair - the first goroutine to reach the window '
+_SWEEP = ('; gate sweep: 9 base conversations (unary, echo, handler error, early successful return, cancel, refused send, server stream, client stream, '
+          'deadline) x 9 instrumented windows x every (arm, release) position pair - the first goroutine to reach the window '
           'is held while everything else runs to quiescence (710 schedules; a sample in the quick tier)')
-for _p, _g in (('C07', 'sweep_c07'), ('C11', 'sweep_c11'), ('C14', 'sweep_c14')):
+for _p, _g in (('C02', 'sweep_c02'), ('C03', 'sweep_c03'), ('C07', 'sweep_c07'), ('C11', 'sweep_c11'), ('C14', 'sweep_c14')):
     PROPS[_p]['parts'] = list(PROPS[_p].get('parts') or [dict(gen=None, trace_spec='GoatTrace.tla')]) + [dict(gen=_g, trace_spec='GoatTrace.tla')]
     PROPS[_p]['rule'] += _SWEEP
     PROPS[_p]['nontrivial_ops'] = list(PROPS[_p].get('nontrivial_ops', [])) + ['arm']
